@@ -140,4 +140,6 @@ var PairwiseInstances = []string{
 	`{"a":{"b":1}}`, `{"a":{"b":"x"}}`, `{"a":{"b":1,"c":2}}`, `{"é":"s"}`, `{"é":1,"a":2}`, `{"a":null}`, `{"a":[1,{"b":null}]}`, `{"b":"s","c":null}`,
 	// members named like the schema keywords the object validator treats specially
 	`{"id":1}`, `{"a":1,"$schema":"x"}`, `{"a":{"id":"x","b":1}}`,
+	// a member named "headers" holding objects with a $ref (the object validator adds an explanation of its own for it)
+	`{"headers":{"X":{"$ref":"#/x"}}}`, `{"a":1,"headers":{"h":{"$ref":"y"},"k":{}}}`, `{"a":{"headers":{"h":{"$ref":"z"}}}}`,
 }
